@@ -76,15 +76,32 @@ def _comp_match(comp, want):
         '(')
 
 
+def _split_group(want):
+    """'a.b' (dots outside parentheses/brackets/quotes) -> ['a', 'b']:
+    components that must be adjacent."""
+    return components(want) if '.' in want else [want]
+
+
 def path_matches(atom, pattern):
+    """The pattern elements occur in order among the components of the
+    access path; an element written 'a.b' requires a immediately followed
+    by b."""
     if atom.startswith(('const:', 'key:')):
         return False
     comps = components(atom)
-    i = 0
-    for c in comps:
-        if i < len(pattern) and _comp_match(c, pattern[i]):
-            i += 1
-    return i == len(pattern)
+    groups = [_split_group(p) for p in pattern]
+
+    def match_from(ci, gi):
+        if gi == len(groups):
+            return True
+        g = groups[gi]
+        for start in range(ci, len(comps) - len(g) + 1):
+            if all(_comp_match(comps[start + k], g[k])
+                   for k in range(len(g))):
+                if match_from(start + len(g), gi + 1):
+                    return True
+        return False
+    return match_from(0, 0)
 
 
 def has(atoms, *pattern):
